@@ -27,7 +27,7 @@ func init() { core.Register(c09{}) }
 func (c09) ID() string    { return "C09" }
 func (c09) Level() string { return "exploration" }
 func (c09) Rule() string {
-	return "cases = (index type, I/O type, DataFileSize 16..64 KiB, 4..16 client goroutines, seed): every client runs a seed-determined stream over Put, Get, Delete (a handful of shared keys), ListKeys, Fold, NewIterator+walk+Close (forward/reverse/prefix), Stat, Sync, batches (NewBatch..Commit inside one goroutine, with Batch.Get; and ONE Batch object shared with 2..4 helper goroutines that Get unstaged keys, Put and Delete on it while the owner stages and commits) and Merge, in a harness built with -race (which implies checkptr); a stateless hook handler yields/sleeps at the engine's hook points to widen windows; the harness itself shares no per-call synchronisation between clients (per-client logs, merged after Wait) so that it adds no happens-before edges that would hide engine races. Violations: a race-detector report with an engine frame (reports are de-duplicated by the pair of innermost engine functions), a panic recovered around any call, a fatal runtime error (worker death), an internal-inconsistency error (ErrIndexUpdateFailed, ErrDataFileNotFound, ErrInvalidCRC, io.EOF, ErrClosed, ErrIncompleteTail) from an individually valid call, a value returned by Get/Fold/iterator that no client wrote for that key, nil or unsorted keys from ListKeys, and a deadlock: no call completes for 30 s AND two goroutine dumps 10 s apart show every client goroutine parked in the same sync.(RW)Mutex acquisition inside engine frames; a stall without that signature is inconclusive. Non-trivial: run in which >=8 of the 12 call kinds overlapped in time with a Put and >=1 rotation happened; distinct = (config, clients, seed)"
+	return "cases = (index type, I/O type, DataFileSize 16..64 KiB, 4..16 client goroutines, seed): every client runs a seed-determined stream over Put, Get, Delete (a handful of shared keys), ListKeys, Fold, NewIterator+walk+Close (forward/reverse/prefix), Stat, Sync, batches (NewBatch..Commit inside one goroutine, with Batch.Get; and ONE Batch object shared with 2..4 helper goroutines that Get unstaged keys, Put and Delete on it while the owner stages and commits; in half of these the keys are private to the client, helpers race Delete and Put of the same key, and after they have all returned the owner puts a final value and commits - each key must then hold it) and Merge, in a harness built with -race (which implies checkptr); a stateless hook handler yields/sleeps at the engine's hook points to widen windows; the harness itself shares no per-call synchronisation between clients (per-client logs, merged after Wait) so that it adds no happens-before edges that would hide engine races. Violations: a race-detector report with an engine frame (reports are de-duplicated by the pair of innermost engine functions), a panic recovered around any call, a fatal runtime error (worker death), an internal-inconsistency error (ErrIndexUpdateFailed, ErrDataFileNotFound, ErrInvalidCRC, io.EOF, ErrClosed, ErrIncompleteTail) from an individually valid call, a value returned by Get/Fold/iterator that no client wrote for that key, nil or unsorted keys from ListKeys, and a deadlock: no call completes for 30 s AND two goroutine dumps 10 s apart show every client goroutine parked in the same sync.(RW)Mutex acquisition inside engine frames; a stall without that signature is inconclusive. Non-trivial: run in which >=8 of the 12 call kinds overlapped in time with a Put and >=1 rotation happened; distinct = (config, clients, seed)"
 }
 func (c09) Assumptions() []string {
 	return []string{"the race detector reports races only on executed paths and keeps a bounded access history; a clean run is not race freedom",
@@ -494,6 +494,63 @@ func c09ClientLoop(cl *c09Client, db *kv.DB, keys [][]byte, r *core.Rng, ncalls 
 			case 7:
 				note("Sync", db.Sync())
 			case 11:
+				if r.Chance(1, 2) {
+					// a shared Batch whose outcome is decidable: keys private to this client (so
+					// no other client interferes), present in the database beforehand; helpers
+					// race Delete and Put of the SAME key on the shared batch; when all of them
+					// have returned the owner puts a final value for every key and commits:
+					// the last operation on each key is that Put, so each key must hold it
+					var pk [][]byte
+					for j := 0; j < 3; j++ {
+						k := []byte(fmt.Sprintf("sb%d.%d", cl.id, j))
+						pk = append(pk, k)
+						note("Put", db.Put(k, mkval(k, 20)))
+					}
+					b := db.NewBatch(kv.BatchOptions{})
+					var hwg sync.WaitGroup
+					herr := make([]error, 4)
+					for h := 0; h < 4; h++ {
+						hv := [][]byte{mkval(pk[0], 30), mkval(pk[1], 30), mkval(pk[2], 30)}
+						hwg.Add(1)
+						go func(h int) {
+							defer hwg.Done()
+							defer func() { recover() }()
+							for j := 0; j < 6; j++ {
+								k := pk[(h/2+j)%3]
+								var err error
+								if (h+j)%2 == 0 {
+									err = b.Delete(k)
+								} else {
+									err = b.Put(k, hv[(h/2+j)%3])
+								}
+								if err != nil {
+									herr[h] = err
+								}
+							}
+						}(h)
+					}
+					hwg.Wait()
+					for _, e := range herr {
+						note("Batch.Put/Delete (shared batch)", e)
+					}
+					final := map[string][]byte{}
+					for _, k := range pk {
+						v := mkval(k, 40)
+						final[string(k)] = v
+						note("Batch.Put", b.Put(k, v))
+					}
+					note("Commit", b.Commit())
+					for _, k := range pk {
+						v, err := db.Get(k)
+						if err != nil || !bytes.Equal(v, final[string(k)]) {
+							cl.viol = append(cl.viol, fmt.Sprintf("shared batch: the last operation on key %q was Put(%q...) and Commit succeeded, but Get returns %q err=%v", k, final[string(k)][:min(16, len(final[string(k)]))], v[:min(16, len(v))], err))
+							cl.vclass = append(cl.vclass, "lost-update")
+						}
+					}
+					cl.errs["shared_batch_decidable_outcomes"]++
+					cl.errs["shared_batch_calls"] += 24
+					return
+				}
 				// ONE Batch object shared by this client and 2..4 helper goroutines (the batch has
 				// its own lock for exactly that): helpers Get unstaged keys / Put / Delete on it
 				// while the owner stages and commits. Helpers log into private slots which the
